@@ -155,3 +155,8 @@ def truediv_parts(parts, other, lo, hi):
     if o.startswith("/"):
         return None
     return join_tokens(parts, o, lo, hi)
+
+
+def from_parts_tokens(parts):
+    """A pointer built from a token list (no optional decoding) holds the tokens' texts."""
+    return tuple([str(p) for p in parts])
